@@ -106,3 +106,5 @@ func init() {
 		}
 	})
 }
+
+func secs(n int) time.Duration { return time.Duration(n) * time.Second }
